@@ -330,6 +330,7 @@ class ProjectHistory:
         self.models: set = set()
         self.tags: set = set()
         self.failed_optimize = 0
+        self.crashed: dict = {}  # run folder left behind by a save that failed midway -> {file: sha256}
 
     def close(self):
         os.chdir(self.cwd)
@@ -355,7 +356,12 @@ class ProjectHistory:
         exp = self.expected_runs()
         with quiet(), expect_ok(f"{clause_prefix}.results_listing"):
             res = dict(self.project.results)
-        check(sorted(res) == exp, f"{clause_prefix}.results_listing", lambda: f"project.results = {sorted(res)}, expected {exp}")
+        listed = sorted(n for n in res if n not in self.crashed)  # a folder left by a failed save may or may not be listed
+        check(listed == exp, f"{clause_prefix}.results_listing", lambda: f"project.results = {sorted(res)}, expected {exp}")
+        for name, files in self.crashed.items():
+            now = run_dir_hashes(self.results_dir / name) if (self.results_dir / name).exists() else None
+            check(now == files, f"{clause_prefix}.files_of_failed_run_destroyed",
+                  lambda: f"files left in {name} by a save that failed midway were overwritten / removed by a later run")
         for name, path in res.items():
             check(Path(path) == self.results_dir / name, f"{clause_prefix}.results_listing", lambda: f"results[{name!r}] = {path}")
         for name in self.order:
@@ -410,6 +416,26 @@ class ProjectHistory:
         self.hashes[expected] = run_dir_hashes(self.results_dir / expected)
         check("result.yml" in self.hashes[expected], "runs.fresh_run_number", lambda: f"{expected} has no result.yml")
         self.sweep(name)
+
+    def _optimize_crash(self, step):
+        """The result save fails midway (fault injected after the data files, before result.yml is written)."""
+        from unittest import mock
+
+        name = step["name"]
+        k = self.counts.get(name, 0)
+        expected = f"{name}_run_{k:04}"
+        try:
+            with quiet(), mock.patch("glotaran.builtin.io.yml.yml.save_scheme", side_effect=HalfWriteError("injected: disk full")):
+                self.project.optimize("fit", "fit_parameters", result_name=name, maximum_number_function_evaluations=1)
+        except HalfWriteError:
+            self.tags.add("crash:save-failed-midway")
+        except Exception:  # noqa: BLE001  (D20-like failures are the business of _optimize)
+            self.tags.add("crash:other-error")
+            return
+        if (self.results_dir / expected).exists():
+            self.crashed[expected] = run_dir_hashes(self.results_dir / expected)
+            self.counts[name] = k + 1  # the number is used: "fresh, strictly increasing run number"
+            self.tags.add("crash:partial-run-folder-left")
 
     def sweep(self, name):
         """Deterministic lookups after every stored run (the random ``lookup`` rule adds more)."""
@@ -564,6 +590,9 @@ class ProjectHistory:
         if fn == "results":
             return  # check_runs_intact does it after every step
         focus = self.focus
+        if any(c.rsplit("_run_", 1)[0] == name for c in self.crashed):
+            self.tags.add("lookup:skipped-name-with-failed-save")  # what 'latest' means next to a half-written run is not stated
+            return
         if spec is not None:
             if count == 0:
                 self.tags.add("lookup:no-run-skipped")
@@ -659,6 +688,11 @@ def _machine(focus: str):
         def optimize(self, name):
             self._step({"op": "optimize", "name": name})
 
+        @precondition(lambda self: self.h is not None and self.h.focus == "runs")
+        @rule(name=st.sampled_from(["m", "m_run_x"]))
+        def optimize_crash(self, name):
+            self._step({"op": "optimize_crash", "name": name})
+
         @precondition(lambda self: self.h is not None)
         @rule(name=st.sampled_from(["m", "m_run_x", "m_run_1"]))
         def optimize_more(self, name):
@@ -739,9 +773,10 @@ def _machine(focus: str):
 
 
 ENUM_OPS = {
-    "quick": [{"op": "optimize", "name": "m"}, {"op": "optimize", "name": "m_run_x"}, {"op": "delete_old_run", "name": "m", "index": 0}],
+    "quick": [{"op": "optimize", "name": "m"}, {"op": "optimize", "name": "m_run_x"}, {"op": "delete_old_run", "name": "m", "index": 0},
+              {"op": "optimize_crash", "name": "m"}],
     "thorough": [{"op": "optimize", "name": "m"}, {"op": "optimize", "name": "m_run_x"}, {"op": "optimize", "name": "m_run_1"},
-                 {"op": "delete_old_run", "name": "m", "index": 0}],
+                 {"op": "delete_old_run", "name": "m", "index": 0}, {"op": "optimize_crash", "name": "m"}],
 }
 ENUM_LEN = {"quick": 4, "thorough": 5}
 
